@@ -17,6 +17,7 @@ def run(ctx):
         if pimpl: corr_schedules(ctx, 'rculfhash with instrumented plain stores', pimpl, None, cases[::3 if ctx.quick() else 2], L.canon_c, oracle=L.oracle, nontrivial=L.contended, tail='012345' * 200, scenario='scen_lfht_plain (oracle only)')
     ximpl = X.build(ctx)
     if ximpl: X.run_cases(ctx, 'rculfhash all operations with concurrent resize', ximpl, X.gen(ctx, XPROGS, 300 if ctx.quick() else 4000, 'C05x', XCONFS))
+    X.run_partitioned_faults(ctx, 'lookups and traversals during partitioned resizes with thread-creation faults', 'C05p', 120 if ctx.quick() else 1500)
     return finish(ctx, trusted=L.TRUSTED + ['oracle-only scenario scen_lfhtx.c: add / add_unique / add_replace / replace / del / lookup / next_duplicate / traversal with explicit grow and shrink (abstract RCU flavor, quarantining allocator)'], rule='corpus + parking sweeps (each thread frozen after k steps) + bursty schedules on colliding keys (hash 5 x4, 7, 4) in a 2-bucket table; '
                   'non-trivial = a failed cmpxchg or a removal helped by another thread; distinct = distinct (program, canonical trace)')
 def replay(ctx, rp):
